@@ -51,7 +51,10 @@ impl<'a> G<'a> {
         } else {
             self.markers.push(s.as_bytes().to_vec());
         }
-        s
+        // the marker leads a value of varying length (code that treats short values specially:
+        // stack buffers, chunked key streams)
+        let fill = match self.rng.below(5) { 0 => self.rng.range(60, 140) as usize, 1 => self.rng.range(300, 3000) as usize, _ => 0 };
+        if fill > 0 { format!("{}{}", s, "qz".repeat(fill / 2)) } else { s }
     }
     /// a string that survives the XML channel unchanged: non-blank, XML Char only
     pub fn text(&mut self) -> String {
@@ -178,6 +181,9 @@ impl<'a> G<'a> {
     }
     pub fn times(&mut self) -> Times {
         let mut t = Times::default();
+        // every struct also occurs with all of its members at their default (zero) value: that is
+        // where writers tend to omit an element and readers to fill in something else
+        if self.rng.chance(1, 8) { return t; }
         t.expires = self.rng.chance(1, 2);
         t.usage_count = self.usize_();
         for name in ["CreationTime", "LastModificationTime", "LastAccessTime", "LocationChanged", "ExpiryTime"] {
@@ -207,6 +213,7 @@ impl<'a> G<'a> {
     pub fn entry(&mut self, with_history: bool) -> Entry {
         let mut e = Entry::default();
         e.uuid = self.uuid();
+        if self.rng.chance(1, 12) { return e; }   // nothing but a UUID
         for _ in 0..self.rng.below(5) {
             let k = self.key();
             let v = self.value(false);
@@ -244,6 +251,7 @@ impl<'a> G<'a> {
     pub fn group(&mut self, depth: u32) -> Group {
         let mut g = Group::default();
         g.uuid = self.uuid();
+        if depth < 2 && self.rng.chance(1, 12) { return g; }   // nothing but a UUID (never the root)
         g.name = if self.rng.chance(1, 10) { String::new() } else { self.text() };
         g.notes = self.opt_text();
         if self.rng.chance(1, 2) { g.icon_id = Some(self.usize_()); }
@@ -268,6 +276,7 @@ impl<'a> G<'a> {
     }
     pub fn meta(&mut self) -> Meta {
         let mut m = Meta::default();
+        if self.rng.chance(1, 10) { return m; }
         m.generator = self.opt_text();
         m.database_name = self.opt_text();
         m.database_name_changed = self.opt_time();
@@ -306,10 +315,14 @@ impl<'a> G<'a> {
         m
     }
     pub fn config(&mut self, cheap: bool) -> DatabaseConfig {
-        let kdf = match self.rng.below(if cheap { 4 } else { 6 }) {
+        // (cheap: AES-KDF mostly, and Argon2 in both variants and both versions with small memory)
+        let argon_version = if self.rng.chance(1, 2) { argon2::Version::Version10 } else { argon2::Version::Version13 };
+        let kdf = match self.rng.below(if cheap { 7 } else { 9 }) {
             0 | 1 | 2 => KdfConfig::Aes { rounds: *self.rng.pick(&[0u64, 1, 2, 7, 100]) },
             3 => KdfConfig::Aes { rounds: self.rng.below(3000) },
-            4 => KdfConfig::Argon2 { iterations: self.rng.range(1, 2), memory: *self.rng.pick(&[8 * 1024u64, 64 * 1024, 65 * 1024 + 13]), parallelism: self.rng.range(1, 2) as u32, version: if self.rng.chance(1, 2) { argon2::Version::Version10 } else { argon2::Version::Version13 } },
+            4 | 5 => KdfConfig::Argon2 { iterations: self.rng.range(1, 2), memory: *self.rng.pick(&[64 * 1024u64, 256 * 1024, 65 * 1024 + 13]), parallelism: self.rng.range(1, 2) as u32, version: argon_version },
+            6 => KdfConfig::Argon2id { iterations: self.rng.range(1, 2), memory: *self.rng.pick(&[64 * 1024u64, 128 * 1024]), parallelism: self.rng.range(1, 2) as u32, version: argon_version },
+            7 => KdfConfig::Argon2 { iterations: self.rng.range(1, 2), memory: *self.rng.pick(&[8 * 1024 * 1024u64, 64 * 1024, 2 * 1024 * 1024 + 13]), parallelism: self.rng.range(1, 2) as u32, version: if self.rng.chance(1, 2) { argon2::Version::Version10 } else { argon2::Version::Version13 } },
             _ => KdfConfig::Argon2id { iterations: self.rng.range(1, 2), memory: *self.rng.pick(&[8 * 1024u64, 32 * 1024]), parallelism: self.rng.range(1, 2) as u32, version: if self.rng.chance(1, 2) { argon2::Version::Version10 } else { argon2::Version::Version13 } },
         };
         DatabaseConfig {
